@@ -46,6 +46,7 @@ T3 == T2 \cup {Sc(Bin("then", SelExt, m)) : m \in T1}
 Inputs == { [x |-> Atom(3), s |-> SA],
             [x |-> PairV(Atom(1), Atom(2)), s |-> SP(SA, SA)],
             [x |-> ListV(<<>>), s |-> SL(0, SA)],
+            [x |-> ListV(<<>>), s |-> SL(0, SI(SA))],      \* the empty population of individuals
             [x |-> ListV(<<Atom(1), Atom(2)>>), s |-> SL(2, SA)],
             [x |-> IndV(Atom(4), 9), s |-> SI(SA)],
             [x |-> ListV(<<IndV(Atom(1), 5), IndV(Atom(2), 6), IndV(Atom(1), 7)>>), s |-> SL(3, SI(SA))] }
@@ -65,9 +66,18 @@ Total == Run(case.e, case.x, 0).st.calls      \* calls when nothing fails
 (* "always drawing from the shared random stream strictly left to right" *)
 LeftToRight == \A n \in 1..Len(R.st.log) : R.st.log[n].at = n - 1
 (* "the first failing part stops the pipeline" *)
+Unfailing == Run(case.e, case.x, 0)          \* the run in which no component is made to fail
 StopsAtFirstFailure ==
+  Unfailing.ok =>
   /\ (case.failAt \in 1..Total => (~R.ok /\ Len(R.st.log) = case.failAt /\ R.st.pos = case.failAt))
   /\ (case.failAt \notin 1..Total => (R.ok /\ Len(R.st.log) = Total))
+(* a run that fails by itself does so because a selector was handed an empty population: the  *)
+(* selector WAS consulted (it is the last call in the log) and nothing ran after it            *)
+EmptySelectionFails ==
+  ~Unfailing.ok =>
+     LET lg == Unfailing.st.log last == lg[Len(lg)] lf == Locate(case.e, Unfailing.path) IN
+     /\ lf.op = "sel" /\ lf.id = last.id /\ last.inp.k = "l" /\ last.inp.xs = <<>>
+     /\ Unfailing.st.pos = Len(lg)
 (* "the error identifies which part or which element failed" *)
 ErrorLocates ==
   ~R.ok => LET lf == Locate(case.e, R.path) IN
